@@ -4,7 +4,9 @@
   Model: Model/Reconcile.lean — lives of the core (in-memory framework id, roster, taskman channel), the
   runtime entry `mesos_fid`, the master (subscription stream, task table), and the steps
   coreStart | coreKill | coreTerm | subscribe | drop | read | handle | launch | status | reconUpdate |
-  release | snapshot. A history is ANY `List Step` (a step that is not enabled does nothing), from ANY
+  release | releaseBegin | releaseEnd | snapshot (a teardown is `release`, or its two roster writes
+  `releaseBegin … releaseEnd` with ANY steps in between: the KILL calls are in flight and deployments of other
+  environments complete meanwhile). A history is ANY `List Step` (a step that is not enabled does nothing), from ANY
   initial content `kv0` of the runtime entry; all theorems quantify over all of them. What the core did is
   the log `(run c W h (init kv0)).log`; the property is the conjunction of the decidable log predicates of
   Spec/C18.lean, which the driver also evaluates on the log of the REAL core.
@@ -15,6 +17,14 @@
   code as it is now, before and after the patch; any other change of the anchored code (no RECONCILE on
   SUBSCRIBED, `mesos_fid` not read or not written, a different KILL guard, another state list, …) makes
   `C18_cfg_is_code` false and the check fail, pointing here.
+
+  "Owned" is ground truth, not the roster: `St.held` = what the live environments hold (set by `launch`, dropped
+  by the teardown of that environment, gone with the process — `C18_held_until_released`). A KILL's `owned` flag is
+  "locked in the roster OR held". That the two coincide — the roster is complete and sound, also across split
+  teardowns — is a theorem about the code's way of writing the roster (`C18_roster_complete`, `C18_owned_is_held`:
+  hypothesis `snapshotRewrite = false`, tied to the go/ast facts by `C18_kill_tasks_roster_writes_is_code`), and
+  it is what `C18_owned_spared_fixed` rests on: `C18_stale_snapshot_kills_owned` refutes it for a doKillTasks
+  that writes a snapshot taken before its KILL calls back after them.
 
   Assumptions spelled out as hypotheses:
     * `∀ n t, W.answers n t = true` — the master answers an implicit reconciliation with EVERY non-terminal
@@ -67,7 +77,16 @@ theorem C18_not_partition_aware_is_code : Gen.C18.partitionAware = false := by d
 /-- Both configurations satisfy what the invariants need. -/
 theorem C18_cfg_sound (c : Cfg) (hc : c = unguardedCfg ∨ c = guardedCfg) : Sound c := by
   rcases hc with rfl | rfl <;>
-    exact ⟨rfl, rfl, rfl, rfl, by decide, by intro st; cases st <;> decide⟩
+    exact ⟨rfl, rfl, rfl, rfl, by decide, by intro st; cases st <;> decide, rfl⟩
+
+/-- doKillTasks writes the roster as the model's `releaseBegin`/`releaseEnd` do — before its KILL calls only
+    `m.roster.updateTasks(m.roster.filtered(…))` (a fresh read, filtered, written at once), after a failed call
+    `m.roster.append(<that task>)`, nothing else, nothing after the loop — and the roster has no other writer than
+    acquireTasks' `append` (the model's `launch`): the model's configuration has `snapshotRewrite = false`. -/
+theorem C18_kill_tasks_roster_writes_is_code :
+    Gen.C18.killTasksRosterWrites = "filter-then-append" ∧
+    Gen.C18.rosterWriteSites = ["acquireTasks:append", "doKillTasks:append", "doKillTasks:updateTasks", "doKillTasks:updateTasks"] ∧
+    codeCfg.snapshotRewrite = false := by decide
 
 /-! ## same identity -/
 
@@ -221,16 +240,127 @@ theorem C18_finding_reconnect_kills_owned : ¬ C18_owned_spared_full unguardedCf
     kills an owned task — in particular after every RESTART, where the roster is empty when the new life
     subscribes. For ALL histories satisfying the hypothesis, both configurations. -/
 theorem C18_owned_spared_partial (c : Cfg) (W : World) (hseed : c.seedFid = true) (hfo : c.failover = true)
+    (hrw : c.snapshotRewrite = false)
     (kv0 : Option Nat) (h : List Step) (hno : noReconnWhileOwning c W h (init kv0) = true) :
     ownedSpared (run c W h (init kv0)).log = true :=
-  (inv_run_P c W hseed hfo h _ hno (invA_init kv0) (by cases kv0 <;> simp [init]) (invP_init kv0)).spec
+  (inv_run_P c W hseed hfo hrw h _ hno (invA_init kv0) (by cases kv0 <;> simp [init]) (invR_init kv0) (invP_init kv0)).spec
+
+/-! ## the roster is complete: what the roster test rests on -/
+
+/-- **The roster is complete.** In every reachable state, every task that a live environment holds — launched
+    in this life, its environment not torn down since (`C18_held_until_released`) — has a roster entry of that
+    environment, locked. For ALL histories, in particular those in which a teardown's two roster writes
+    (`releaseBegin e … releaseEnd e`, the KILL calls in flight between them) are interleaved with `launch`es of
+    other environments, further teardowns, connection drops (the KILLs then fail and the tasks are appended back)
+    and restarts. Hypothesis: the code appends failed tasks back one by one instead of writing back a roster
+    value read before the calls (`C18_kill_tasks_roster_writes_is_code`); `C18_roster_needs_append_back` shows
+    it cannot be dropped. -/
+theorem C18_roster_complete (c : Cfg) (hrw : c.snapshotRewrite = false) (W : World) (kv0 : Option Nat) (h : List Step) :
+    let s := run c W h (init kv0)
+    ∀ t e, (t, e) ∈ s.held → ∃ r ∈ s.roster, r.id = t ∧ r.env = e ∧ r.locked = true := by
+  intro s t e hm
+  exact (invR_run c W hrw h _ (invR_init kv0)).complete (t, e) hm
+
+/-- … and sound: "locked in the roster" and "held by a live environment" are the same thing in every reachable
+    state, so the roster test of the KILL branch decides ownership correctly. -/
+theorem C18_owned_is_held (c : Cfg) (hrw : c.snapshotRewrite = false) (W : World) (kv0 : Option Nat) (h : List Step) :
+    let s := run c W h (init kv0)
+    ∀ t, lockedIn s.roster t = heldBy s.held t := by
+  intro s t
+  exact (heldBy_eq_lockedIn s (invR_run c W hrw h _ (invR_init kv0)) t).symm
+
+/-- What `held` means, without reference to the roster: a task stays held by its environment `e` as long as
+    the process lives on and `e` is not torn down (`release e` / `releaseBegin e`); `launch` makes it held. -/
+theorem C18_held_until_released (c : Cfg) (W : World) (s : St) (x : Step) (t e : Nat) (hm : (t, e) ∈ s.held)
+    (hal : (step c W s x).alive = true) (hl : (step c W s x).life = s.life)
+    (h1 : x ≠ .release e) (h2 : x ≠ .releaseBegin e) : (t, e) ∈ (step c W s x).held := by
+  cases x with
+  | release e' =>
+    have : e' ≠ e := fun h => h1 (h ▸ rfl)
+    simp only [step] at hal ⊢; split <;> (try split) <;> simp_all [List.mem_filter] <;> grind
+  | releaseBegin e' =>
+    have : e' ≠ e := fun h => h2 (h ▸ rfl)
+    simp only [step] at hal ⊢; split <;> simp_all [List.mem_filter] <;> grind
+  | coreStart => grind [step, St.exit]
+  | coreKill => grind [step, St.exit]
+  | coreTerm => grind [step, St.exit]
+  | subscribe => grind [step, St.exit]
+  | drop => grind [step, St.exit]
+  | read => grind [step, St.exit]
+  | handle => grind [step, St.exit]
+  | launch e' t' => grind [step, St.exit]
+  | status t' st => grind [step, St.exit]
+  | reconUpdate t' st => grind [step, St.exit]
+  | releaseEnd e' => grind [step, St.exit]
+  | snapshot => grind [step, St.exit]
+
+theorem C18_launch_holds (c : Cfg) (W : World) (s : St) (e t f : Nat) (hal : s.alive = true) (hs : s.stream = some f)
+    (hh : s.hello = none) (hf : t ∉ s.seen) :
+    (t, e) ∈ (step c W s (.launch e t)).held ∧ lockedIn (step c W s (.launch e t)).roster t = true := by
+  simp [step, hal, hs, hh, hf, lockedIn]
+
+/-- A teardown without anything in between IS the two halves one after the other: `release e` =
+    `releaseBegin e` then `releaseEnd e` (no other teardown of `e` in flight), in both configurations and also
+    with a snapshot written back — the difference only shows when something is interleaved. -/
+theorem C18_release_is_split (c : Cfg) (W : World) (s : St) (e : Nat)
+    (hno : s.tearing.all (fun d => d.env != e) = true) :
+    step c W (step c W s (.releaseBegin e)) (.releaseEnd e) = step c W s (.release e) := by
+  by_cases hal : s.alive = true
+  case neg => simp [step, hal]
+  have hfind : s.tearing.find? (fun d => d.env == e) = none := by
+    apply List.find?_eq_none.mpr
+    intro d hd
+    have := List.all_eq_true.mp hno d hd
+    simpa using this
+  have herase : ∀ d : Teardown, d.env = e → (s.tearing ++ [d]).eraseP (fun d => d.env == e) = s.tearing := by
+    intro d hd
+    rw [List.eraseP_append_right]
+    · simp [hd]
+    · intro d' hd'
+      have := List.all_eq_true.mp hno d' hd'
+      simpa using this
+  by_cases hs : s.stream.isSome = true
+  · simp [step, hal, hs, hfind, List.find?_append, herase, killsFor, putBack, Function.comp_def]
+  · simp [step, hal, hs, hfind, List.find?_append, herase]
+    intro a _ ha he
+    cases a; simp_all [putBack]
+
+/-- A teardown of environment 0 whose KILL call is in flight while environment 1 is deployed; then the stream
+    is dropped, the core re-subscribes and the master reports task 1 (owned, running) in its answer. -/
+def C18_witness_overlap : List Step :=
+  [.coreStart, .subscribe, .read, .launch 0 0, .status 0 .running, .read, .handle,
+   .releaseBegin 0, .launch 1 1, .status 1 .running, .read, .handle, .releaseEnd 0, .status 0 .killed, .read, .handle,
+   .drop, .subscribe, .read, .read, .handle]
+
+/-- `C18_roster_complete` needs its hypothesis: a doKillTasks that writes the roster value it read before its
+    KILL calls back after them (`staleCfg`) loses the task deployed in between — held by environment 1, running,
+    and no longer in the roster. -/
+theorem C18_roster_needs_append_back :
+    let s := run staleCfg World.complete (C18_witness_overlap.take 13) (init none)
+    (1, 1) ∈ s.held ∧ inRoster s.roster 1 = false ∧
+    inRoster (run guardedCfg World.complete (C18_witness_overlap.take 13) (init none)).roster 1 = true := by
+  decide
+
+/-! ## owned tasks are spared — by the roster test, BECAUSE the roster is complete -/
 
 /-- With the roster test of notes/C18.fix.patch the full statement holds, for ALL histories, with no
-    hypothesis on reconnections. -/
-theorem C18_owned_spared_fixed (c : Cfg) (hg : c.rosterGuard = true) : C18_owned_spared_full c := by
+    hypothesis on reconnections — given that the roster is complete (`C18_roster_complete`: failed KILLs are
+    appended back, no snapshot is rewritten), so that "not in the roster" implies "not held by any environment". -/
+theorem C18_owned_spared_fixed (c : Cfg) (hg : c.rosterGuard = true) (hrw : c.snapshotRewrite = false) :
+    C18_owned_spared_full c := by
   intro W kv0 h
-  exact run_preserves (P := fun s => ownedSpared s.log = true) c W
-    (fun s x hs => ownedSpared_step_guarded c W hg s x hs) h _ (by cases kv0 <;> simp [init, ownedSpared])
+  exact (run_preserves (P := fun s => InvR s ∧ ownedSpared s.log = true) c W
+    (fun s x hs => ⟨invR_step c W hrw s x hs.1, ownedSpared_step_guarded c W hg s x hs.1 hs.2⟩) h _
+    ⟨invR_init kv0, by cases kv0 <;> simp [init, ownedSpared]⟩).2
+
+/-- … and the roster test ALONE is not enough: with a doKillTasks that rewrites a stale snapshot, the witness
+    history ends with a KILL — caused by the reconciliation answer after the re-subscription — of task 1, which
+    environment 1 holds. (This is the class of regressions "the roster forgets an owned task": the KILL branch
+    then takes the task for a leftover of a previous life.) -/
+theorem C18_stale_snapshot_kills_owned : ¬ C18_owned_spared_full staleCfg := by
+  intro hfull
+  have := hfull World.complete none C18_witness_overlap
+  revert this; decide
 
 /-- The patch does not cost the other half: the guarded configuration still kills every orphan
     (instance of `C18_orphans_killed`; stated because it is the point of the patch). -/
@@ -262,8 +392,8 @@ theorem C18_code_meets_spec (W : World) (hW : ∀ n t, W.answers n t = true) (kv
   have h4 := C18_updates_never_kill codeCfg (by rcases hc with e | e <;> rw [e] <;> rfl) W kv0 h
   have h3 : ownedSpared (run codeCfg W h (init kv0)).log = true := by
     rcases hno with hg | hno
-    · exact C18_owned_spared_fixed codeCfg hg W kv0 h
-    · exact C18_owned_spared_partial codeCfg W hs.seed hs.failover kv0 h hno
+    · exact C18_owned_spared_fixed codeCfg hg hs.norewrite W kv0 h
+    · exact C18_owned_spared_partial codeCfg W hs.seed hs.failover hs.norewrite kv0 h hno
   simp [Spec.C18.all, h1.1, h1.2, h2, h2', h3, h4]
 
 /-! ## non-vacuity -/
@@ -283,6 +413,14 @@ example : C18_witness_survivor.all (stepOk unguardedCfg) = true ∧
     noReconnWhileOwning unguardedCfg World.complete C18_witness_survivor (init none) = true ∧
     (run unguardedCfg World.complete C18_witness_survivor (init none)).log.head? = some (.snap 2 [0]) ∧
     Spec.C18.all (run unguardedCfg World.complete C18_witness_survivor (init none)).log = true := by decide
+
+/-- The overlap history is legal; with the code's configuration task 1 stays in the roster through the split
+    teardown, the reconciliation answer about it causes no KILL, the whole Spec holds — and it is non-trivial:
+    the teardown's KILL of task 0 is in the log, task 1 is held and alive at the end. -/
+example : C18_witness_overlap.all (stepOk guardedCfg) = true ∧
+    (let s := run guardedCfg World.complete C18_witness_overlap (init none)
+     (1, 1) ∈ s.held ∧ lockedIn s.roster 1 = true ∧ Out.kill 1 0 .release false ∈ s.log ∧
+     s.log.all (fun o => match o with | .kill _ 1 _ _ => false | _ => true) = true ∧ Spec.C18.all s.log = true) := by decide
 
 /-- The witness of the finding is a legal history for the other theorems (complete answers, listed states). -/
 example : C18_witness_reconnect.all (stepOk unguardedCfg) = true ∧
